@@ -111,6 +111,7 @@ fn main() {
                             let steps = 32.0;
                             let k = (next() >> 40) % (steps as u64 + 1);
                             let x = lo + (hi - lo) * (k as f64) / steps; // dyadic grid: exact in rationals
+                            if n.starts_with("tol") { m.insert(n.clone(), format!("{}", 0.5f64.powi(1 + (k % 14) as i32))); continue; }
                             m.insert(n.clone(), if trial % 2 == 0 { format!("{}", x) } else { format!("{}", (x * 4.0).round() / 4.0) });
                         }
                         for float in [false, true] {
@@ -137,10 +138,16 @@ fn main() {
                 let mut found: BTreeMap<String, (BTreeMap<String, String>, &str)> = BTreeMap::new();
                 if !labels.is_empty() && labels.len() <= 12 {
                     let t_search = std::time::Instant::now();
-                    for _trial in 0..200u32 {
-                        if rep.var_names.is_empty() || t_search.elapsed().as_secs() > 60 { break; }
+                    // time-bounded (60 s), at least 200 and at most 20000 trials
+                    for trial in 0..20000u32 {
+                        if rep.var_names.is_empty() || (trial >= 200 && t_search.elapsed().as_secs() > 60) || t_search.elapsed().as_secs() > 240 { break; }
                         let mut m = BTreeMap::new();
-                        for n in &rep.var_names { let k = (next() >> 40) % 33; m.insert(n.clone(), format!("{}", lo + (hi - lo) * (k as f64) / 32.0)); }
+                        for n in &rep.var_names {
+                            let k = (next() >> 40) % 33;
+                            // tolerances are small positive numbers: draw them as 2^-j so that stopping tests are not trivially met
+                            if n.starts_with("tol") { m.insert(n.clone(), format!("{}", (1 + (next() >> 40) % 31) as f64 / 32.0 * 0.5f64.powi((k % 12) as i32))); }
+                            else { m.insert(n.clone(), format!("{}", lo + (hi - lo) * (k as f64) / 32.0)); }
+                        }
                         for float in [false, true] {
                             let ct = run_concrete(cfg.clone(), float, &m, &mut body);
                             for l in &labels { if !found.contains_key(l) && ct.failures.iter().any(|f| label_matches(f, l)) { found.insert(l.clone(), (m.clone(), if float { "f64 (input found by search for an undecided obligation)" } else { "exact-rational (input found by search for an undecided obligation)" })); } }
